@@ -21,6 +21,9 @@ pub enum Sm {
 	SubstChar(usize, usize),
 	/// a multi-byte UTF-8 character inserted before the position
 	InsChar(usize, usize),
+	/// (occurrence, index into BECH32_LENS): the occurrence-th bech32 address found in the artefact re-encoded,
+	/// with a valid checksum, over a key of another length (a single-character edit never gets past the checksum)
+	Bech32Len(usize, usize),
 	/// (position, index into CASE_CHARS, k): k copies of a character whose case mapping changes its
 	/// byte length written over the k*len bytes at the position (the byte length of the text is kept)
 	CaseRun(usize, usize, usize),
@@ -68,6 +71,43 @@ pub fn case_runs(n: usize) -> std::sync::Arc<Vec<(usize, usize, usize)>> {
 	}
 	let v = Arc::new(v);
 	c.insert(n, v.clone());
+	v
+}
+
+/// data lengths (bytes) of the re-encoded addresses; a real key has 32
+pub const BECH32_LENS: [usize; 7] = [0, 1, 16, 31, 33, 40, 64];
+
+/// well-formed bech32 strings with the wallet's address prefixes inside an artefact: (start, end, hrp, data)
+pub fn bech32_spans(b: &[u8]) -> Vec<(usize, usize, String, Vec<u8>)> {
+	use bech32::FromBase32;
+	const CHARSET: &[u8] = b"qpzry9x8gf2tvdw0s3jn54khce6mua7l";
+	let mut v = vec![];
+	let mut i = 0;
+	while i < b.len() {
+		let mut hit = None;
+		for hrp in ["tgrin1", "grin1"].iter() {
+			if b[i..].starts_with(hrp.as_bytes()) && (i == 0 || !b[i - 1].is_ascii_alphanumeric()) {
+				hit = Some(hrp.len());
+				break;
+			}
+		}
+		if let Some(hl) = hit {
+			let mut j = i + hl;
+			while j < b.len() && CHARSET.contains(&b[j]) {
+				j += 1;
+			}
+			if let Ok(text) = std::str::from_utf8(&b[i..j]) {
+				if let Ok((hrp, data)) = bech32::decode(text) {
+					if let Ok(bytes) = Vec::<u8>::from_base32(&data) {
+						v.push((i, j, hrp, bytes));
+						i = j;
+						continue;
+					}
+				}
+			}
+		}
+		i += 1;
+	}
 	v
 }
 
@@ -140,6 +180,24 @@ impl Sm {
 					None
 				}
 			}
+			Sm::Bech32Len(occ, li) => {
+				use bech32::ToBase32;
+				let spans = bech32_spans(b);
+				let (start, end, hrp, data) = spans.get(occ)?.clone();
+				let want = BECH32_LENS[li];
+				let mut d = data.clone();
+				d.resize(want, 0x42);
+				let enc = bech32::encode(&hrp, d.to_base32()).ok()?;
+				let mut o = b[..start].to_vec();
+				// a one-byte length prefix in front of the string (binary forms) follows the new length
+				if start > 0 && b[start - 1] as usize == end - start && enc.len() < 256 {
+					let n = o.len();
+					o[n - 1] = enc.len() as u8;
+				}
+				o.extend_from_slice(enc.as_bytes());
+				o.extend_from_slice(&b[end..]);
+				Some(o)
+			}
 			Sm::CaseRun(p, c, k) => {
 				let l = k * CASE_CHARS[c].len();
 				if p + l <= b.len() {
@@ -164,6 +222,7 @@ impl Sm {
 			Sm::Transp(p) => format!("swap bytes {} and {}", p, p + 1),
 			Sm::SubstChar(p, c) => format!("byte {} := the {}-byte character U+{:04X}", p, UTF8_CHARS[c].len(), UTF8_CHARS[c].chars().next().unwrap() as u32),
 			Sm::InsChar(p, c) => format!("insert the {}-byte character U+{:04X} before byte {}", UTF8_CHARS[c].len(), UTF8_CHARS[c].chars().next().unwrap() as u32, p),
+			Sm::Bech32Len(occ, li) => format!("bech32 address #{} re-encoded (valid checksum) over {} key bytes", occ, BECH32_LENS[li]),
 			Sm::CaseRun(p, c, k) => format!("bytes {}..{} := {} x U+{:04X} (case mapping changes its length)", p, p + k * CASE_CHARS[c].len(), k, CASE_CHARS[c].chars().next().unwrap() as u32),
 		}
 	}
@@ -178,6 +237,7 @@ pub enum MClass {
 	Transp,
 	Utf8Char,
 	CaseRun,
+	Bech32Len,
 	JsonNode,
 	BinField,
 	Frame,
@@ -195,6 +255,7 @@ impl MClass {
 			MClass::Transp => "transposition",
 			MClass::Utf8Char => "multibyte-character",
 			MClass::CaseRun => "case-length-run",
+			MClass::Bech32Len => "bech32-key-length",
 			MClass::JsonNode => "json-node",
 			MClass::BinField => "length-field",
 			MClass::Frame => "armor-framing",
@@ -282,6 +343,7 @@ pub fn byte_class_get(c: MClass, b: &[u8], text: bool, i: usize) -> Sm {
 			let (p, ci, k) = case_runs(b.len())[i];
 			Sm::CaseRun(p, ci, k)
 		}
+		MClass::Bech32Len => Sm::Bech32Len(i / BECH32_LENS.len(), i % BECH32_LENS.len()),
 		_ => unreachable!(),
 	}
 }
